@@ -1457,9 +1457,9 @@ op_map = {
     "Z3_OP_BSDIV0": None,
     "Z3_OP_BSDIV_I": "SDiv",
     "Z3_OP_BSHL": "__lshift__",
-    "Z3_OP_BSMOD": "SMod",
+    "Z3_OP_BSMOD": None,  # bvsmod (sign follows the divisor) has no claripy operation; SMod is bvsrem
     "Z3_OP_BSMOD0": None,
-    "Z3_OP_BSMOD_I": "SMod",
+    "Z3_OP_BSMOD_I": None,
     "Z3_OP_BSMUL_NO_OVFL": None,
     "Z3_OP_BSMUL_NO_UDFL": None,
     "Z3_OP_BSREM": "SMod",
